@@ -203,6 +203,8 @@ Definition dispatch_sig (op : bytes) (args : list sx) : option sx :=
   (* a chain object shared by the first signer of two bundles: both bundles verify afterwards *)
   else if bytes_eqb op (s2b "bsig_two_bundles") then Some (SL [SZ 1; SZ 1])
   (* add ok, add refused, repaired add ok, both exchanges verify *)
+  (* one signer, window moved a week on between two signatures: each verifies in its own window only *)
+  else if bytes_eqb op (s2b "bsig_resign") then Some (SL [SZ 1; SZ 0; SZ 1; SZ 0])
   else if bytes_eqb op (s2b "bsig_add_retry") then Some (SL [SZ 1; SZ 0; SZ 1; SZ 1; SZ 1])
   (* one Signer re-keyed between signatures: every exchange verifies against the certificate it names *)
   else if bytes_eqb op (s2b "sxg_signer_rekey") then Some (SL [SZ 1; SZ 1; SZ 1])
